@@ -221,6 +221,21 @@ func init() {
 			c.Fail("setup-error", b.Err.Error())
 			return
 		}
+		if !lateAPI && (len(prefix)+len(last))%2 == 1 {
+			// the same parser has answered other completion requests before (a shell asks again at every TAB): partial command
+			// words at two levels and a partial option name, each of which leaves only some of the candidates
+			c.Hit("earlier-completion-requests")
+			b.Parser.CompletionHandler = func([]flags.Completion) {}
+			os.Setenv("GO_FLAGS_COMPLETION", "1")
+			for _, w := range [][]string{{"a"}, {"r"}, {"add", "d"}, {"add", "--d"}, {"--v"}, {"zz"}} {
+				func() {
+					defer func() { recover() }()
+					b.Parser.ParseArgs(w)
+				}()
+			}
+			os.Unsetenv("GO_FLAGS_COMPLETION")
+			rezero(b)
+		}
 		var items []flags.Completion
 		calls := 0
 		_ = afterIgnored
@@ -409,13 +424,13 @@ func init() {
 		Level:      "model_checking",
 		ShardDepth: 7,
 		Body:       body,
-		Rule: "declaration with Completer-typed options (short+long, long-only, a multi-byte short name, two different word lists, a completer that matches case-insensitively and answers in lower case), an optional-argument option, hidden long and hidden short-only options, hidden command, short-only options in lower and upper case, commands sharing a prefix (add, adx), alias, sub-subcommand; " +
+		Rule: "(in the cells where the number of typed words plus the length of the partial word is odd, the tag-built parser has answered six other completion requests before - partial command words at two levels, partial option names, a word nothing matches) declaration with Completer-typed options (short+long, long-only, a multi-byte short name, two different word lists, a completer that matches case-insensitively and answers in lower case), an optional-argument option, hidden long and hidden short-only options, hidden command, short-only options in lower and upper case, commands sharing a prefix (add, adx), alias, sub-subcommand; " +
 			"positionals of add in 5 layouts (none, [Words], [Words,int], [int,Words], [Words, ...Words2]) x subcommands-optional on the parser yes/no x HelpFlag yes/no (+ IgnoreUnknown, + PassAfterNonOption on the two layouts whose positionals complete differently: after the first plain word only positional values are asserted) x {struct tags, API build where a group of the parser is added after the commands and after a first completion and parse on the half-built parser}; every valid prefix (the CLM in prefix mode accepts it) of <= 3 units (quick: <= 2 on the HelpFlag variants, with optional subcommands and on two of the five positional layouts; thorough: <= 4 on the [Words,int] layout without HelpFlag) over 31 units " +
 			"(flags, separate / attached / '=' arguments, pending option, cluster ending in a pending option, optional-argument option, command words and alias, plain words, numbers, terminator) x 38 partial last words; " +
 			"oracle from the CLM context after the prefix: (a) '-' / '--p' => exactly the non-hidden options in scope with that prefix, (b) value position of a Completer-typed option or positional => exactly its words re-attached to the spelling, " +
 			"(c) otherwise the non-hidden subcommands with that prefix, (d) sorted, (e) every offered option/command re-parsed by the real parser at that position is not unknown, (f) the real parser's Active chain on the typed words equals the model's",
 		Assumptions:  []string{"left unasserted: option names after --, the echo of a complete short flag, value positions whose type has no completions, option and command names after the first plain word under PassAfterNonOption"},
-		RequiredHits: []string{"asserted", "offer-reparsed", "class:bare-dash", "class:long-name", "class:long-value", "class:short", "class:positional-value", "class:command-name", "class:option-value-separate", "class:after-terminator", "pass-after-non-option"},
+		RequiredHits: []string{"earlier-completion-requests", "asserted", "offer-reparsed", "class:bare-dash", "class:long-name", "class:long-value", "class:short", "class:positional-value", "class:command-name", "class:option-value-separate", "class:after-terminator", "pass-after-non-option"},
 		Bound:        [2]string{"prefixes <= 3 units", "prefixes <= 3 units, <= 4 on one declaration family"},
 		BudgetS:      [2]int{170, 1500},
 	})
